@@ -5,46 +5,70 @@ package main
 import (
 	"context"
 	"fmt"
-	"sort"
 
-	"github.com/sourcenetwork/defradb/client"
+	"github.com/sourcenetwork/immutable"
+
+	"github.com/sourcenetwork/defradb/acp/dac"
+	"github.com/sourcenetwork/defradb/acp/identity"
+	"github.com/sourcenetwork/defradb/crypto"
 	vnode "github.com/sourcenetwork/defradb/internal/verifharness/node"
+
+	badgerds "github.com/dgraph-io/badger/v4"
+	"github.com/sourcenetwork/corekv/badger"
 )
 
-func ids(ctx context.Context, batches ...string) {
-	n, err := vnode.NewMem(ctx)
-	if err != nil {
-		panic(err)
-	}
-	defer n.Close()
-	for _, b := range batches {
-		if _, err := n.DB.AddSchema(ctx, b); err != nil {
-			fmt.Println("  error:", err)
-			return
-		}
-	}
-	cols, _ := n.DB.GetCollections(ctx, client.CollectionFetchOptions{})
-	var ls []string
-	for _, c := range cols {
-		ls = append(ls, fmt.Sprintf("   %s %s", c.Name(), c.Version().VersionID))
-	}
-	sort.Strings(ls)
-	for _, l := range ls {
-		fmt.Println(l)
-	}
-}
+const policy = `
+name: Verif Policy
+description: A Policy
+actor:
+  name: actor
+resources:
+  users:
+    permissions:
+      read:
+        expr: owner + reader
+      update:
+        expr: owner
+      delete:
+        expr: owner
+    relations:
+      owner:
+        types:
+          - actor
+      reader:
+        types:
+          - actor
+`
 
 func main() {
 	ctx := context.Background()
-	cyc := "type Bee { name: String\n r1dog: Dog }\ntype Dog { name: String\n r1cat: Cat }\ntype Cat { name: String\n r1bee: Bee }\n"
-	ant := "type Ant { name: String\n r1dog: Dog\n r2bee: Bee }\n"
-	fmt.Println("cycle alone")
-	ids(ctx, cyc)
-	fmt.Println("cycle + Ant, one call")
-	ids(ctx, cyc+ant)
-	fmt.Println("cycle, then Ant")
-	ids(ctx, cyc, ant)
-	ant1 := "type Ant { name: String\n r1dog: Dog }\n"
-	fmt.Println("cycle + Ant(1 ref), one call")
-	ids(ctx, cyc+ant1)
+	root, _ := badger.NewDatastore("", badgerds.DefaultOptions("").WithInMemory(true).WithLoggingLevel(badgerds.ERROR))
+	acp, _ := dac.NewLocalDocumentACP("")
+	nd, err := vnode.NewOn(ctx, root, immutable.Some(acp))
+	if err != nil {
+		panic(err)
+	}
+	defer nd.Close()
+	id, _ := identity.Generate(crypto.KeyTypeSecp256k1)
+	octx := identity.WithContext(ctx, immutable.Some[identity.Identity](id))
+	res, err := nd.DB.AddDACPolicy(octx, policy)
+	if err != nil {
+		panic(err)
+	}
+	_, err = nd.DB.AddSchema(ctx, fmt.Sprintf(`type Author @policy(id: "%s", resource: "users") { name: String
+ age: Int }`, res.PolicyID))
+	if err != nil {
+		panic(err)
+	}
+	show := func(what string, c context.Context, q string) {
+		r := nd.DB.ExecRequest(c, q)
+		fmt.Println(what, r.GQL.Data, r.GQL.Errors)
+	}
+	show("owner create", octx, `mutation { create_Author(input: {name: "x", age: 1}) { _docID } }`)
+	show("owner update", octx, `mutation { update_Author(filter: {name: {_eq: "x"}}, input: {age: 2}) { _docID age } }`)
+	show("owner read", octx, `query { Author { name age } }`)
+	show("anonymous read", ctx, `query { Author { name age } }`)
+	show("anonymous create same content", ctx, `mutation { create_Author(input: {name: "x", age: 1}) { _docID age } }`)
+	show("owner read", octx, `query { Author { name age } }`)
+	show("owner commits", octx, `query { commits(fieldName: "_C") { cid height } }`)
 }
